@@ -3,7 +3,7 @@
    somewhere, or overlaps a pod CIDR of a cached node.  Theorem: when the loop gives up, EVERY block of the
    pool is blocked in that sense (with respect to the state the loop started from) -- whatever the cursor
    position, however many blocks are blocked only through other ClusterCIDRs. *)
-From NIPAM Require Import Alloc Geom_proofs Pool_proofs Alloc_proofs Inv_proofs.
+From NIPAM Require Import Alloc Geom_proofs Pool_proofs Prio_proofs Alloc_proofs Inv_proofs.
 From Coq Require Import Lia.
 Open Scope N_scope.
 
@@ -86,6 +86,143 @@ Proof.
   rewrite N.mod_add by exact HP. apply N.mod_small. exact Hi.
 Qed.
 
+(* ---------------------------------------------------------------------------------------------
+   Lift over the attempts of prioritizedCIDRs.  Between the state a node sync starts from and the
+   state an attempt on a later entry sees, only cursors move and one IPv4 block is reserved and
+   given back; [msim] says: same keys, same entries position by position, every pool with the same
+   geometry and the same SET of used keys. *)
+Definition psim (a b : pool) : Prop := pg a = pg b /\ forall z, In z (used a) <-> In z (used b).
+Definition orel {A} (R : A -> A -> Prop) (x y : option A) : Prop :=
+  match x, y with Some a, Some b => R a b | None, None => True | _, _ => False end.
+Definition esim (c c' : ccset) : Prop := orel psim (cc_v4 c) (cc_v4 c') /\ orel psim (cc_v6 c) (cc_v6 c').
+Definition msim (m m' : cidrmap) : Prop :=
+  Forall2 (fun kl kl' => fst kl = fst kl' /\ Forall2 esim (snd kl) (snd kl')) m m'.
+
+Lemma psim_refl a : psim a a.  Proof. split; [reflexivity|intros z; tauto]. Qed.
+Lemma psim_trans a b c : psim a b -> psim b c -> psim a c.
+Proof. intros [H1 H2] [H3 H4]. split; [congruence|]. intros z. rewrite H2. apply H4. Qed.
+Lemma psim_sym a b : psim a b -> psim b a.
+Proof. intros [H1 H2]. split; [congruence|]. intros z. symmetry. apply H2. Qed.
+Lemma orel_refl {A} (R : A -> A -> Prop) : (forall a, R a a) -> forall x, orel R x x.
+Proof. intros H [a|]; cbn; auto. Qed.
+Lemma orel_trans {A} (R : A -> A -> Prop) : (forall a b c, R a b -> R b c -> R a c) -> forall x y z, orel R x y -> orel R y z -> orel R x z.
+Proof. intros H [a|] [b|] [c|]; cbn; try tauto. apply H. Qed.
+Lemma orel_sym {A} (R : A -> A -> Prop) : (forall a b, R a b -> R b a) -> forall x y, orel R x y -> orel R y x.
+Proof. intros H [a|] [b|]; cbn; try tauto. apply H. Qed.
+Lemma esim_refl c : esim c c.
+Proof. split; apply orel_refl; apply psim_refl. Qed.
+Lemma esim_trans a b c : esim a b -> esim b c -> esim a c.
+Proof. intros [A1 A2] [B1 B2]. split; eapply orel_trans; try eassumption; apply psim_trans. Qed.
+Lemma esim_sym a b : esim a b -> esim b a.
+Proof. intros [A1 A2]. split; apply orel_sym; try assumption; apply psim_sym. Qed.
+
+Lemma Forall2_refl {A} (R : A -> A -> Prop) : (forall a, R a a) -> forall l, Forall2 R l l.
+Proof. intros H l. induction l; constructor; auto. Qed.
+Lemma Forall2_trans {A} (R : A -> A -> Prop) : (forall a b c, R a b -> R b c -> R a c) ->
+  forall l1 l2 l3, Forall2 R l1 l2 -> Forall2 R l2 l3 -> Forall2 R l1 l3.
+Proof.
+  intros H l1 l2 l3 H12. revert l3. induction H12; intros l3 H23; inversion H23; subst; constructor; eauto.
+Qed.
+Lemma Forall2_sym {A} (R : A -> A -> Prop) : (forall a b, R a b -> R b a) -> forall l1 l2, Forall2 R l1 l2 -> Forall2 R l2 l1.
+Proof. intros H l1 l2 H12. induction H12; constructor; auto. Qed.
+
+Lemma msim_refl m : msim m m.
+Proof. apply Forall2_refl. intros [k l]. split; [reflexivity|apply Forall2_refl; apply esim_refl]. Qed.
+Lemma msim_trans a b c : msim a b -> msim b c -> msim a c.
+Proof.
+  apply Forall2_trans. intros [k1 l1] [k2 l2] [k3 l3] [E1 F1] [E2 F2]; cbn in *. split; [congruence|].
+  eapply Forall2_trans; try eassumption. apply esim_trans.
+Qed.
+Lemma msim_sym a b : msim a b -> msim b a.
+Proof.
+  apply Forall2_sym. intros [k1 l1] [k2 l2] [E F]; cbn in *. split; [congruence|]. apply Forall2_sym; [apply esim_sym|exact F].
+Qed.
+
+Lemma msim_find m m' k : msim m m' ->
+  match find_key k m, find_key k m' with
+  | Some l, Some l' => Forall2 esim l l'
+  | None, None => True
+  | _, _ => False
+  end.
+Proof.
+  intros H. induction H as [|[k1 l1] [k2 l2] m m' [E F] H IH]; cbn; [exact I|]. cbn in E, F. subst k2.
+  destruct (str_eqb k k1); [exact F|exact IH].
+Qed.
+
+Lemma Forall2_nth {A} (R : A -> A -> Prop) l l' i : Forall2 R l l' -> orel R (nth_error l i) (nth_error l' i).
+Proof. intros H. revert i. induction H; intros [|i]; cbn; auto. Qed.
+
+Lemma msim_get m m' q : msim m m' -> orel esim (get_entry m q) (get_entry m' q).
+Proof.
+  intros H. unfold get_entry. pose proof (msim_find m m' (fst q) H) as Hf.
+  destruct (find_key (fst q) m) as [l|], (find_key (fst q) m') as [l'|]; try contradiction; [|exact I].
+  apply Forall2_nth. exact Hf.
+Qed.
+
+Lemma Forall2_set_nth {A} (R : A -> A -> Prop) l l' i a b : Forall2 R l l' -> R a b -> Forall2 R (set_nth i a l) (set_nth i b l').
+Proof. intros H Hab. revert i. induction H; intros [|i]; cbn; constructor; auto. Qed.
+
+Lemma msim_set_key m m' k l l' : msim m m' -> Forall2 esim l l' -> msim (set_key k l m) (set_key k l' m').
+Proof.
+  intros H Hl. induction H as [|[k1 l1] [k2 l2] m m' [E F] H IH]; cbn.
+  - constructor; [split; [reflexivity|exact Hl]|constructor].
+  - cbn in E, F. subst k2. destruct (str_eqb k k1).
+    + constructor; [split; [reflexivity|exact Hl]|exact H].
+    + constructor; [split; [reflexivity|exact F]|exact IH].
+Qed.
+
+Lemma msim_set_entry A B q a b : msim A B -> esim a b -> msim (set_entry A q a) (set_entry B q b).
+Proof.
+  intros H Hab. unfold set_entry. pose proof (msim_find A B (fst q) H) as Hf.
+  destruct (find_key (fst q) A) as [l|], (find_key (fst q) B) as [l'|]; try contradiction; [|exact H].
+  apply msim_set_key; [exact H|]. apply Forall2_set_nth; assumption.
+Qed.
+
+Lemma set_nth_same {A} i (c : A) l : nth_error l i = Some c -> set_nth i c l = l.
+Proof. revert l. induction i as [|i IH]; intros [|h t]; cbn; try discriminate; intros E; [inversion E; reflexivity|rewrite IH; auto]. Qed.
+Lemma set_key_same k l m : find_key k m = Some l -> set_key k l m = m.
+Proof.
+  induction m as [|[k0 l0] m IH]; cbn; [discriminate|]. destruct (str_eqb k k0) eqn:E.
+  - intros H. inversion H; subst. apply str_eqb_eq in E. subst. reflexivity.
+  - intros H. rewrite IH; auto.
+Qed.
+Lemma set_entry_same m q c : get_entry m q = Some c -> set_entry m q c = m.
+Proof.
+  unfold get_entry, set_entry. destruct (find_key (fst q) m) as [l|] eqn:Ef; [|reflexivity]. intros Hn.
+  rewrite (set_nth_same _ _ _ Hn). apply set_key_same. exact Ef.
+Qed.
+
+Lemma msim_set_entry_self m q c c1 : get_entry m q = Some c -> esim c c1 -> msim m (set_entry m q c1).
+Proof.
+  intros Hg He. rewrite <- (set_entry_same m q c Hg) at 1. apply msim_set_entry; [apply msim_refl|exact He].
+Qed.
+
+(* the two scans look at used SETS only *)
+Lemma existsb_seteq {A} (h : A -> bool) l l' : (forall z, In z l <-> In z l') -> existsb h l = existsb h l'.
+Proof.
+  intros H. destruct (existsb h l) eqn:E.
+  - apply existsb_exists in E. destruct E as (x & Hx & Hh). symmetry. apply existsb_exists. exists x. split; [apply H; exact Hx|exact Hh].
+  - destruct (existsb h l') eqn:E'; [|reflexivity]. apply existsb_exists in E'. destruct E' as (x & Hx & Hh).
+    assert (existsb h l = true) by (apply existsb_exists; exists x; split; [apply H; exact Hx|exact Hh]). congruence.
+Qed.
+
+Lemma esim_pool_of c c' f : esim c c' -> orel psim (pool_of c f) (pool_of c' f).
+Proof. intros [H4 H6]. destruct f; assumption. Qed.
+
+Lemma msim_scans m m' : msim m m' -> same_scans m m'.
+Proof.
+  intros H b. apply msim_sym in H.
+  assert (G : forall (g : ccset -> bool), (forall c c', esim c c' -> g c = g c') ->
+              existsb g (all_entries m') = existsb g (all_entries m)).
+  { intros g Hg. unfold all_entries. induction H as [|[k1 l1] [k2 l2] a b' [E F] H IH]; [reflexivity|].
+    cbn [flat_map snd]. rewrite !existsb_app, IH. f_equal. cbn in F. clear - F Hg.
+    induction F; [reflexivity|]. cbn. rewrite IHF. f_equal. apply Hg. assumption. }
+  unfold in_allocated_list, overlaps_allocated. split; apply G; intros c c' He;
+    pose proof (esim_pool_of c c' (cf b) He) as Hp;
+    destruct (pool_of c (cf b)) as [x|], (pool_of c' (cf b)) as [y|]; try contradiction; try reflexivity;
+    destruct Hp as [_ Hu]; unfold mem_cidr; apply existsb_seteq; exact Hu.
+Qed.
+
 Section Loop.
   Variables (held : list cidr) (p : path) (f : fam) (m0 : cidrmap) (c0 : ccset) (pl0 : pool).
   Hypothesis Hg0 : get_entry m0 p = Some c0.
@@ -104,18 +241,21 @@ Section Loop.
 
   Definition cover (st : alloc_state) : Prop :=
     match st with
-    | ARun ev m => exists c pl, get_entry m p = Some c /\ pool_of c f = Some pl /\ same_scans m0 m /\
+    | ARun ev m => exists c pl, get_entry m p = Some c /\ pool_of c f = Some pl /\ msim m0 m /\
          PoolInv pl /\ pg pl = pg pl0 /\ pmax pl = pmax pl0 /\ used pl = used pl0 /\
          cur pl = (cur pl0 + ev) mod pmax pl0 /\
          forall j, j < ev -> blockedb m0 held (pos j) = true
-    | ADone m (Err e) => same_scans m0 m /\ (clean_geom (pg pl0) = true -> e = EExhausted) /\
+    | ADone m (Err e) => msim m0 m /\ (clean_geom (pg pl0) = true -> e = EExhausted) /\
                          (e = EExhausted -> forall i, i < maxc (pg pl0) -> blockedb m0 held (block (pg pl0) i) = true)
-    | ADone _ _ => True
+    | ADone m' (Ok x) => exists m1 c1 c2 pl1 j, msim m0 m1 /\ get_entry m1 p = Some c1 /\ pool_of c1 f = Some pl1 /\
+                           PoolInv pl1 /\ pg pl1 = pg pl0 /\ j < maxc (pg pl0) /\ x = block (pg pl0) j /\
+                           in_allocated_list m1 x = false /\ cc_occupy c1 x = Ok c2 /\ m' = set_entry m1 p c2
+    | ADone _ Panic => True
     end.
 
   Lemma cover_init : cover (ARun 0 m0).
   Proof.
-    exists c0, pl0. split; [exact Hg0|]. split; [exact Hp0|]. split; [intros b; split; reflexivity|].
+    exists c0, pl0. split; [exact Hg0|]. split; [exact Hp0|]. split; [apply msim_refl|].
     split; [exact I0|]. split; [reflexivity|]. split; [reflexivity|]. split; [reflexivity|]. split.
     - rewrite N.add_0_r. symmetry. apply N.mod_small. apply (inv_cur pl0 I0).
     - intros j Hj. lia.
@@ -124,31 +264,35 @@ Section Loop.
   Lemma cover_step st : cover st -> cover (alloc_step held p f st).
   Proof.
     destruct st as [ev m|m r]; [|intros H; exact H].
-    intros (c & pl & Hg & Hp & Hs & I & Hpg & Hpm & Hu & Hcur & Hcov).
+    intros (c & pl & Hg & Hp & Hms & I & Hpg & Hpm & Hu & Hcur & Hcov). pose proof (msim_scans _ _ Hms) as Hs.
     pose proof (inv_max pl0 I0) as Hmax0. pose proof (maxc_pos (pg pl0)) as Hpos.
     assert (HP : pmax pl0 <> 0) by lia.
     unfold alloc_step. rewrite Hg, Hp.
     destruct (pmax pl <=? ev) eqn:Ele.
     { (* the counter reached the capacity: the ring has been walked round completely *)
-      apply N.leb_le in Ele. cbn [cover]. split; [exact Hs|]. split; [reflexivity|]. intros _ i Hi.
+      apply N.leb_le in Ele. cbn [cover]. split; [exact Hms|]. split; [reflexivity|]. intros _ i Hi.
       destruct (ring_onto (pmax pl0) (cur pl0) i (inv_cur pl0 I0) ltac:(lia)) as (j & Hj & Hij).
       specialize (Hcov j ltac:(lia)). unfold pos in Hcov. rewrite Hij in Hcov. exact Hcov. }
     apply N.leb_gt in Ele.
     pose proof (next_spec pl I) as Hn. destruct (next_candidate pl) as [blk sk pl'|e].
     2:{ (* every block of the pool itself is used *)
-      cbn [cover]. split; [exact Hs|]. split; [reflexivity|]. intros _ i Hi.
+      cbn [cover]. split; [exact Hms|]. split; [reflexivity|]. intros _ i Hi.
       apply own_used_blocked; [rewrite <- Hu, <- Hpg; apply Hn; rewrite Hpg; exact Hi|cbn; exact Hf0]. }
     destruct Hn as (i & Hi & Hblk & Hfree & Hsk & Hidx & Hskip & Hpl' & I' & _).
     assert (Hu' : used pl' = used pl) by (rewrite Hpl'; reflexivity).
     pose proof (same_scans_cursor m p c f pl pl' Hg Hp Hu') as Hsc.
     set (c1 := with_pool c f pl') in *. set (m1 := set_entry m p c1) in *.
+    assert (Hms1 : msim m0 m1).
+    { eapply msim_trans; [exact Hms|]. subst m1. eapply msim_set_entry_self; [exact Hg|].
+      assert (Hps : psim pl pl') by (split; [rewrite Hpl'; reflexivity|intros z; rewrite Hu'; tauto]).
+      subst c1. clear - Hp Hps. destruct f; cbn in *; (split; cbn; [try (rewrite Hp; exact Hps); try (apply orel_refl; apply psim_refl)|try (rewrite Hp; exact Hps); try (apply orel_refl; apply psim_refl)]). }
     assert (Hpos_eq : forall t, block (pg pl) ((cur pl + t) mod pmax pl) = pos (ev + t)).
     { intros t. unfold pos. rewrite Hpg, Hpm, Hcur. f_equal. apply ring_step. exact HP. }
     destruct (in_allocated_list m1 blk || overlaps_allocated m1 blk || in_use_by_node held blk)%bool eqn:Eb.
     - (* the candidate is blocked: go on *)
       cbn [cover]. exists c1, pl'. split; [subst m1; eapply get_set_entry_same; exact Hg|].
       split; [subst c1; apply pool_of_with_pool_same|].
-      split; [intros b; destruct (Hsc b) as [A B]; destruct (Hs b) as [A0 B0]; split; congruence|].
+      split; [exact Hms1|].
       split; [exact I'|].
       split; [rewrite Hpl'; exact Hpg|]. split; [rewrite Hpl'; exact Hpm|]. split; [congruence|].
       split.
@@ -164,8 +308,12 @@ Section Loop.
           replace j with (ev + (j - ev)) by lia. rewrite <- Hpos_eq.
           apply own_used_blocked; [rewrite <- Hu; apply Hskip; lia|cbn; rewrite Hpg; exact Hf0].
     - destruct (cc_occupy c1 blk) as [c2|e|] eqn:Eo; cbn [cover]; try exact Logic.I.
-      assert (Hs1 : same_scans m0 m1) by (intros b; destruct (Hsc b) as [A B]; destruct (Hs b) as [A0 B0]; split; congruence).
-      split; [exact Hs1|].
+      { exists m1, c1, c2, pl', i. split; [exact Hms1|]. split; [subst m1; eapply get_set_entry_same; exact Hg|].
+        split; [subst c1; apply pool_of_with_pool_same|]. split; [exact I'|].
+        split; [rewrite Hpl'; exact Hpg|]. split; [rewrite <- Hpg; exact Hi|]. split; [rewrite <- Hpg; exact Hblk|].
+        apply Bool.orb_false_iff in Eb. destruct Eb as [Eb _]. apply Bool.orb_false_iff in Eb. destruct Eb as [Eb _].
+        split; [exact Eb|]. split; [exact Eo|reflexivity]. }
+      split; [exact Hms1|].
       (* occupying a block of the pool itself cannot fail in the clean domain, and never reports exhaustion *)
       assert (Hcf : cf blk = f) by (rewrite Hblk; cbn; rewrite Hpg; exact Hf0).
       unfold cc_occupy in Eo. rewrite Hcf in Eo. subst c1. rewrite pool_of_with_pool_same in Eo.
@@ -206,7 +354,7 @@ Qed.
 Theorem allocate_cidr_complete held m p f c pl m' e :
   get_entry m p = Some c -> pool_of c f = Some pl -> PoolInv pl -> gf (pg pl) = f -> clean_geom (pg pl) = true ->
   allocate_cidr held m p f = (m', Err e) ->
-  e = EExhausted /\ same_scans m m' /\ forall i, i < maxc (pg pl) -> blockedb m held (block (pg pl) i) = true.
+  e = EExhausted /\ msim m m' /\ forall i, i < maxc (pg pl) -> blockedb m held (block (pg pl) i) = true.
 Proof.
   intros Hg Hp I Hf Hcl H. unfold allocate_cidr in H. rewrite Hg, Hp in H.
   assert (G : cover held p f m pl (N.iter (pmax pl + 1) (alloc_step held p f) (ARun 0 m))).
@@ -221,4 +369,209 @@ Proof.
     specialize (Hcov j ltac:(lia)). unfold pos in Hcov. rewrite Hij in Hcov. exact Hcov.
   - inversion H; subst. cbn [cover] in G. destruct G as (Hs & He & Hall).
     specialize (He Hcl). subst e. split; [reflexivity|]. split; [exact Hs|]. apply Hall. reflexivity.
+Qed.
+
+
+Theorem allocate_cidr_ok_shape held m p f c pl m' x :
+  get_entry m p = Some c -> pool_of c f = Some pl -> PoolInv pl -> gf (pg pl) = f ->
+  allocate_cidr held m p f = (m', Ok x) ->
+  exists m1 c1 c2 pl1 j, msim m m1 /\ get_entry m1 p = Some c1 /\ pool_of c1 f = Some pl1 /\
+    PoolInv pl1 /\ pg pl1 = pg pl /\ j < maxc (pg pl) /\ x = block (pg pl) j /\
+    in_allocated_list m1 x = false /\ cc_occupy c1 x = Ok c2 /\ m' = set_entry m1 p c2.
+Proof.
+  intros Hg Hp I Hf H. unfold allocate_cidr in H. rewrite Hg, Hp in H.
+  assert (G : cover held p f m pl (N.iter (pmax pl + 1) (alloc_step held p f) (ARun 0 m))).
+  { apply N.iter_invariant; [intros st; apply (cover_step held p f m c pl Hg Hp I Hf)|apply (cover_init held p f m c pl Hg Hp I)]. }
+  destruct (N.iter (pmax pl + 1) (alloc_step held p f) (ARun 0 m)) as [ev m2|m2 r]; [discriminate|].
+  inversion H; subst. exact G.
+Qed.
+
+Lemma set_nth_twice {A} i (a b : A) l : set_nth i b (set_nth i a l) = set_nth i b l.
+Proof. revert l. induction i as [|i IH]; intros [|h t]; cbn; try reflexivity. rewrite IH. reflexivity. Qed.
+Lemma set_key_twice k l1 l2 m : set_key k l2 (set_key k l1 m) = set_key k l2 m.
+Proof.
+  induction m as [|[k0 l0] m IH]; cbn; [rewrite str_eqb_refl; reflexivity|].
+  destruct (str_eqb k k0) eqn:E; cbn; [rewrite str_eqb_refl; reflexivity|rewrite E, IH; reflexivity].
+Qed.
+Lemma set_entry_twice m q a b : set_entry (set_entry m q a) q b = set_entry m q b.
+Proof.
+  unfold set_entry. destruct (find_key (fst q) m) as [l|] eqn:Ef.
+  - rewrite find_key_set_key_same, set_nth_twice, set_key_twice. reflexivity.
+  - rewrite Ef. reflexivity.
+Qed.
+
+(* a block reserved and given back leaves the map as it was, up to [msim], whatever happened to cursors in between *)
+Lemma reserve_release_sim m1 p c1 c2 x m2 c' c'' pl1 j :
+  PoolInv pl1 -> clean_geom (pg pl1) = true -> MapInv m2 ->
+  get_entry m1 p = Some c1 -> pool_of c1 (cf x) = Some pl1 -> j < maxc (pg pl1) -> x = block (pg pl1) j ->
+  in_allocated_list m1 x = false -> cc_occupy c1 x = Ok c2 ->
+  msim (set_entry m1 p c2) m2 -> get_entry m2 p = Some c' -> cc_release c' x = Ok c'' ->
+  msim m1 (set_entry m2 p c'').
+Proof.
+  intros I1 Hcl1 M2 Hg1 Hp1 Hj Hx Hfresh Ho Hms Hg2 Hr.
+  assert (E' : EntryInv c') by exact (get_entry_inv m2 p c' M2 Hg2).
+  assert (Hwx : wf_cidr x) by (rewrite Hx; apply block_wf; [apply (inv_wf pl1 I1)|exact Hj]).
+  (* x is not used in its own pool *)
+  assert (Hnot : ~ In x (used pl1)).
+  { intros Hin. assert (in_allocated_list m1 x = true); [|congruence].
+    unfold in_allocated_list. apply existsb_exists. exists c1. split; [eapply get_entry_in_all; exact Hg1|].
+    rewrite Hp1. apply mem_cidr_In. exact Hin. }
+  unfold cc_occupy in Ho. rewrite Hp1 in Ho. destruct (occupy pl1 x) as [q|] eqn:Eq; [|discriminate]. inversion Ho; subst c2. clear Ho.
+  pose proof (msim_get _ _ p Hms) as Hge. rewrite (get_set_entry_same _ _ _ _ Hg1), Hg2 in Hge. cbn in Hge.
+  unfold cc_release in Hr. destruct (pool_of c' (cf x)) as [pl'|] eqn:Ep'; [|discriminate].
+  destruct (release pl' x) as [r|] eqn:Er; [|discriminate]. inversion Hr; subst c''. clear Hr.
+  pose proof (esim_pool_of _ _ (cf x) Hge) as Hpq. rewrite pool_of_with_pool_same, Ep' in Hpq. cbn in Hpq. destruct Hpq as [Hpgq Huq].
+  destruct (pool_of_PI c' (cf x) pl' E' Ep') as (I' & Hf' & Hcl').
+  pose proof (occupy_spec pl1 x I1 Hcl1 Hwx) as Hos. rewrite Eq in Hos. destruct Hos as (_ & Iq & _ & Hpgq1 & _ & _ & Hoccu).
+  pose proof (release_spec pl' x I' Hcl' Hwx) as Hrs. rewrite Er in Hrs. destruct Hrs as (_ & Ir & _ & Hpgr & _ & _ & Hrelu).
+  assert (Hgeo : pg pl' = pg pl1) by congruence.
+  assert (Hps : psim pl1 r).
+  { split; [congruence|]. intros z. split.
+    - intros Hz. destruct (inv_blocks pl1 I1 z Hz) as (i & Hi & ->).
+      rewrite <- Hgeo. apply Hrelu; [rewrite Hgeo; exact Hi|]. rewrite Hgeo. split.
+      + apply Huq. apply Hoccu; [exact Hi|]. left. exact Hz.
+      + intros Hov. rewrite Hx in Hov. destruct (N.eq_dec i j) as [->|Hne]; [apply Hnot; rewrite Hx; exact Hz|].
+        exact (blocks_disjoint (pg pl1) i j Hne Hov).
+    - intros Hz. destruct (inv_blocks r Ir z Hz) as (i & Hi & ->). rewrite Hpgr in Hi, Hz |- *.
+      apply Hrelu in Hz; [|exact Hi]. destruct Hz as [Hz Hno]. rewrite Hgeo in Hz, Hno |- *.
+      apply Huq in Hz. apply Hoccu in Hz; [|rewrite <- Hgeo; exact Hi]. destruct Hz as [Hz|Hz]; [exact Hz|contradiction]. }
+  rewrite <- (set_entry_same m1 p c1 Hg1) at 1. rewrite <- (set_entry_twice m1 p (with_pool c1 (cf x) q) c1).
+  apply msim_set_entry; [exact Hms|].
+  destruct Hge as [H4 H6]. destruct (cf x); cbn in *; split; cbn; try assumption; rewrite Hp1; exact Hps.
+Qed.
+
+(* scans for a CIDR of one family do not see the pools of the other family *)
+Lemma scans_other_family m q c c1 b :
+  get_entry m q = Some c -> pool_of c1 (cf b) = pool_of c (cf b) ->
+  in_allocated_list (set_entry m q c1) b = in_allocated_list m b /\
+  overlaps_allocated (set_entry m q c1) b = overlaps_allocated m b.
+Proof.
+  intros Hg Hp. unfold in_allocated_list, overlaps_allocated.
+  split; (eapply existsb_all_entries_set_entry; [exact Hg|rewrite Hp; reflexivity]).
+Qed.
+
+Lemma blockedb_scans m m' held b : same_scans m m' -> blockedb m' held b = blockedb m held b.
+Proof. intros H. unfold blockedb. destruct (H b) as [A B]. rewrite A, B. reflexivity. Qed.
+
+(* an entry has no room: in one of its families every block is blocked *)
+Definition no_room (m : cidrmap) (held : list cidr) (c : ccset) : Prop :=
+  exists f pl, pool_of c f = Some pl /\ forall i, i < maxc (pg pl) -> blockedb m held (block (pg pl) i) = true.
+
+Lemma release_own_block_ok pl x j : PoolInv pl -> clean_geom (pg pl) = true -> j < maxc (pg pl) -> x = block (pg pl) j -> release pl x <> None.
+Proof.
+  intros I Hcl Hj Hx Hn. assert (Hwx : wf_cidr x) by (rewrite Hx; apply block_wf; [apply (inv_wf pl I)|exact Hj]).
+  pose proof (release_spec pl x I Hcl Hwx) as Hs. rewrite Hn in Hs. apply Hs.
+  destruct (block_in_range (pg pl) j (inv_wf pl I) Hj) as [Hfam Hsub]. rewrite <- Hx in Hfam, Hsub.
+  split; [symmetry; exact Hfam|]. exists (ca x). split; [apply Hsub|]; unfold in_cidr; split; try lia;
+    apply N.lt_add_pos_r; unfold hostsz; apply N.neq_0_lt_0; apply N.pow_nonzero; discriminate.
+Qed.
+
+Theorem prioritized_try_refusal held ps : forall m0 m m' e,
+  MapInv m -> msim m0 m -> prioritized_try held m ps = (m', Err e) ->
+  forall p c0, In p ps -> get_entry m0 p = Some c0 -> no_room m0 held c0.
+Proof.
+  induction ps as [|p0 ps IH]; intros m0 m m' e M Hms H p c0 Hin Hg0; [destruct Hin|].
+  cbn [prioritized_try] in H.
+  destruct (get_entry m p0) as [c|] eqn:Eg; [|discriminate].
+  pose proof (get_entry_inv m p0 c M Eg) as Ec.
+  pose proof (msim_scans _ _ Hms) as Hsc.
+  (* the entry of m0 at p0 *)
+  assert (Hrel : forall c00, get_entry m0 p0 = Some c00 -> esim c00 c).
+  { intros c00 Hg. pose proof (msim_get _ _ p0 Hms) as Ho. rewrite Hg, Eg in Ho. exact Ho. }
+  (* what a failed attempt on family f at state mk (related to m0, entry ck related to c) shows about c00 *)
+  assert (Hfail : forall f mk ck plk mk' ek c00, get_entry m0 p0 = Some c00 -> esim c00 ck -> same_scans m0 mk ->
+             get_entry mk p0 = Some ck -> pool_of ck f = Some plk -> PI f plk ->
+             allocate_cidr held mk p0 f = (mk', Err ek) -> msim mk mk' /\ no_room m0 held c00).
+  { intros f mk ck plk mk' ek c00 Hg00 He Hs Hgk Hpk (Ik & Hfk & Hclk) Ha.
+    destruct (allocate_cidr_complete held mk p0 f ck plk mk' ek Hgk Hpk Ik Hfk Hclk Ha) as (_ & Hmk & Hall).
+    split; [exact Hmk|]. pose proof (esim_pool_of _ _ f He) as Hpo. rewrite Hpk in Hpo.
+    destruct (pool_of c00 f) as [pl00|] eqn:Ep00; [|contradiction]. destruct Hpo as [Hpg _].
+    exists f, pl00. split; [exact Ep00|]. intros i Hi. rewrite Hpg in *. rewrite <- (blockedb_scans _ _ held _ Hs). apply Hall. exact Hi. }
+  destruct (cc_v4 c) as [p4|] eqn:E4.
+  - destruct (allocate_cidr held m p0 V4) as [m1 r4] eqn:Ea4.
+    pose proof (allocate_cidr_inv _ _ _ _ _ _ M Ea4) as M1.
+    destruct r4 as [x4|e4|]; [| |discriminate].
+    + (* IPv4 block reserved *)
+      destruct (cc_v6 c) as [p6|] eqn:E6; [|discriminate].
+      destruct (allocate_cidr held m1 p0 V6) as [m2 r6] eqn:Ea6.
+      pose proof (allocate_cidr_inv _ _ _ _ _ _ M1 Ea6) as M2.
+      destruct r6 as [x6|e6|]; [discriminate| |discriminate].
+      destruct (allocate_cidr_ok_shape held m p0 V4 c p4 m1 x4 Eg E4 (proj1 (ei_v4 c Ec p4 E4)) (proj1 (proj2 (ei_v4 c Ec p4 E4))) Ea4)
+        as (ma & c1 & c2 & pl1 & j & Hma & Hga & Hpa & Ia & Hpga & Hj & Hx4 & Hfr & Hocc & Hm1).
+      assert (Hcf4 : cf x4 = V4) by (rewrite Hx4; cbn; exact (proj1 (proj2 (ei_v4 c Ec p4 E4)))).
+      assert (Hcla : clean_geom (pg pl1) = true) by (rewrite Hpga; exact (proj2 (proj2 (ei_v4 c Ec p4 E4)))).
+      (* the entry at p0 in m1 and its IPv6 pool *)
+      assert (Hg1 : get_entry m1 p0 = Some c2) by (rewrite Hm1; eapply get_set_entry_same; exact Hga).
+      assert (Hc2 : c2 = with_pool c1 V4 (match occupy pl1 x4 with Some q => q | None => pl1 end)).
+      { unfold cc_occupy in Hocc. rewrite Hcf4, Hpa in Hocc. destruct (occupy pl1 x4); [inversion Hocc; reflexivity|discriminate]. }
+      assert (He1 : esim c c1) by (pose proof (msim_get _ _ p0 Hma) as Ho; rewrite Eg, Hga in Ho; exact Ho).
+      assert (Hp62 : pool_of c2 V6 = pool_of c1 V6) by (rewrite Hc2; reflexivity).
+      destruct (pool_of c1 V6) as [p6a|] eqn:Ep6a; [|destruct He1 as [_ He6]; rewrite E6 in He6; cbn in Ep6a; rewrite Ep6a in He6; contradiction].
+      assert (PI6 : PI V6 p6a) by (apply (pool_of_PI c2 V6 p6a (get_entry_inv m1 p0 c2 M1 Hg1)); exact Hp62).
+      (* scans for IPv6 CIDRs in m1 are those of ma, hence of m0 *)
+      assert (Hs1 : forall b, cf b = V6 -> blockedb m1 held b = blockedb m0 held b).
+      { intros b Hb. rewrite Hm1. unfold blockedb.
+        destruct (scans_other_family ma p0 c1 c2 b Hga ltac:(rewrite Hb, Hp62, Ep6a; reflexivity)) as [A B]. rewrite A, B.
+        pose proof (msim_scans _ _ (msim_trans _ _ _ Hms Hma)) as Hs. destruct (Hs b) as [A0 B0]. rewrite A0, B0. reflexivity. }
+      destruct (allocate_cidr_complete held m1 p0 V6 c2 p6a m2 e6 Hg1 Hp62 (proj1 PI6) (proj1 (proj2 PI6)) (proj2 (proj2 PI6)) Ea6)
+        as (_ & Hm12 & Hall6).
+      (* the IPv4 block is given back *)
+      pose proof (msim_get _ _ p0 Hm12) as Hg2. rewrite Hg1 in Hg2.
+      destruct (get_entry m2 p0) as [c'|] eqn:Eg2; [|contradiction].
+      assert (Hrel_ok : exists c'', cc_release c' x4 = Ok c'').
+      { unfold cc_release. rewrite Hcf4. pose proof (esim_pool_of _ _ V4 Hg2) as Hpo.
+        destruct (pool_of c' V4) as [pl'|] eqn:Ep'; [|rewrite Hc2 in Hpo; cbn in Hpo; contradiction].
+        destruct (pool_of_PI c' V4 pl' (get_entry_inv m2 p0 c' M2 Eg2) Ep') as (I' & _ & Hcl').
+        rewrite Hc2 in Hpo. cbn in Hpo. destruct Hpo as [Hpg' _].
+        assert (Hgeo : pg pl' = pg pl1).
+        { rewrite <- Hpg'. destruct (occupy pl1 x4) as [q|] eqn:Eq; [|reflexivity].
+          pose proof (occupy_spec pl1 x4 Ia Hcla ltac:(rewrite Hx4, <- Hpga; apply block_wf; [apply (inv_wf pl1 Ia)|rewrite Hpga; exact Hj])) as Ho.
+          rewrite Eq in Ho. destruct Ho as (_ & _ & _ & Hq & _). exact Hq. }
+        destruct (release pl' x4) as [r|] eqn:Er; [eexists; reflexivity|].
+        exfalso. eapply (release_own_block_ok pl' x4 j I' Hcl'); [rewrite Hgeo, Hpga; exact Hj|rewrite Hgeo, Hpga; exact Hx4|exact Er]. }
+      destruct Hrel_ok as (c'' & Hrel_ok). rewrite Hrel_ok in H.
+      assert (Hm3 : msim ma (set_entry m2 p0 c'')).
+      { eapply (reserve_release_sim ma p0 c1 c2 x4 m2 c' c'' pl1 j Ia Hcla M2 Hga); try eassumption.
+        - rewrite Hcf4. exact Hpa.
+        - rewrite Hpga. exact Hj.
+        - rewrite Hpga. exact Hx4.
+        - rewrite <- Hm1. exact Hm12. }
+      assert (M3 : MapInv (set_entry m2 p0 c'')).
+      { apply set_entry_inv; [exact M2|]. eapply cc_release_inv; [exact (get_entry_inv m2 p0 c' M2 Eg2)| |exact Hrel_ok].
+        rewrite Hx4, <- Hpga. apply block_wf; [apply (inv_wf pl1 Ia)|rewrite Hpga; exact Hj]. }
+      destruct Hin as [<-|Hin].
+      * (* p0 itself: its IPv6 pool is exhausted *)
+        pose proof (Hrel c0 Hg0) as He0. pose proof (esim_pool_of _ _ V6 (esim_trans _ _ _ He0 He1)) as Hpo. rewrite Ep6a in Hpo.
+        destruct (pool_of c0 V6) as [pl00|] eqn:Ep00; [|contradiction]. destruct Hpo as [Hpg _].
+        exists V6, pl00. split; [exact Ep00|]. intros i Hi. rewrite Hpg in *.
+        rewrite <- Hs1; [apply Hall6; exact Hi|]. cbn. exact (proj1 (proj2 PI6)).
+      * eapply (IH m0 _ m' e M3); [|exact H|exact Hin|exact Hg0].
+        eapply msim_trans; [exact Hms|]. eapply msim_trans; [exact Hma|exact Hm3].
+    + (* the IPv4 pool is exhausted *)
+      pose proof (msim_get _ _ p0 Hms) as Ho0. rewrite Eg in Ho0.
+      destruct (get_entry m0 p0) as [c00|] eqn:Eg00; [|contradiction].
+      destruct (Hfail V4 m c p4 m1 e4 c00 eq_refl Ho0 Hsc Eg E4 (ei_v4 c Ec p4 E4) Ea4) as [Hm1 Hnr0].
+      destruct Hin as [<-|Hin]; [rewrite Eg00 in Hg0; inversion Hg0; subst; exact Hnr0|].
+      eapply (IH m0 m1 m' e M1); [eapply msim_trans; eassumption|exact H|exact Hin|exact Hg0].
+  - destruct (cc_v6 c) as [p6|] eqn:E6; [|discriminate].
+    destruct (allocate_cidr held m p0 V6) as [m2 r6] eqn:Ea6.
+    pose proof (allocate_cidr_inv _ _ _ _ _ _ M Ea6) as M2.
+    destruct r6 as [x6|e6|]; [discriminate| |discriminate].
+    destruct Hin as [<-|Hin].
+    + destruct (Hfail V6 m c p6 m2 e6 c0 Hg0 (Hrel c0 Hg0) Hsc Eg E6 (ei_v6 c Ec p6 E6) Ea6) as [_ Hnr]. exact Hnr.
+    + assert (Hm2 : msim m m2).
+      { destruct (allocate_cidr_complete held m p0 V6 c p6 m2 e6 Eg E6 (proj1 (ei_v6 c Ec p6 E6)) (proj1 (proj2 (ei_v6 c Ec p6 E6))) (proj2 (proj2 (ei_v6 c Ec p6 E6))) Ea6) as (_ & Hm & _). exact Hm. }
+      eapply (IH m0 m2 m' e M2); [eapply msim_trans; eassumption|exact H|exact Hin|exact Hg0].
+Qed.
+
+(* C05 at the level of a node sync: when prioritizedCIDRs refuses, every entry it considered (the matching,
+   non-terminating entries in priority order) has a family in which every block is blocked -- with respect to
+   the state the sync started from *)
+Theorem prioritized_cidrs_refusal po lab held m node m' e ps :
+  MapInv m -> ordered_matching po lab m (n_labels node) true = Ok ps ->
+  prioritized_cidrs po lab held m node = (m', Err e) ->
+  forall p c, In p ps -> get_entry m p = Some c -> no_room m held c.
+Proof.
+  intros M Ho H. unfold prioritized_cidrs in H. rewrite Ho in H.
+  eapply prioritized_try_refusal; [exact M|apply msim_refl|exact H].
 Qed.
